@@ -133,7 +133,7 @@ def prepare_examples(ctx, extreme_rain=True):
     sl2 = open(sp).read().split("\n")
     first = [l for l in sl2 if l.startswith("041 ") and len(l) >= 72 and l[13:15] == "03"][0]
     # (capacities from the texture table: the FC/WP/PS columns are left blank, so Hydro is called for it)
-    thin = "902" + first[3:13] + "02" + first[15:32] + "02 01" + first[37:40] + "        " + first[48:]
+    thin = "902" + first[3:13] + "02" + first[15:21] + "00" + first[23:32] + "02 01" + first[37:40] + "        " + first[48:]
     endi = [i for i, l in enumerate(sl2) if l.strip() == "end"]
     sl2.insert(endi[0] if endi else len(sl2), thin)
     open(sp, "w").write("\n".join(sl2))
@@ -144,11 +144,20 @@ def prepare_examples(ctx, extreme_rain=True):
         if l.startswith("SOYSM1,SOY,05151981,09311981"):
             cl[i] = "SOYSM1,SOY,05151981,07201981" + l[28:]
     open(cpc, "w").write("\n".join(cl))
-    # a SPARSE groundwater time series of a constant level inside the profile (days between the observations are interpolated)
+    # a SPARSE groundwater time series of a constant level inside the profile (days between the observations are
+    # interpolated) that ENDS inside the run (after the last record the last level is held)
     gp = os.path.join(ex, "project", "ex3", "gw_ex3.csv")
     g3 = open(gp).read().rstrip("\n")
-    g3 += "\nK12,01011979,12\nK12,06011981,12\nK12,03151984,12\nK12,12312000,12\n"
+    g3 += "\nK12,01011979,12\nK12,12011980,12\nK12,06011981,12\n"
     open(gp, "w").write(g3)
+    # the residue table: the silage-maize row becomes the LAST row, and the file keeps ending without a line feed
+    cn = os.path.join(ex, "parameter", "CROP_N.TXT")
+    raw = open(cn, "rb").read().decode("latin-1")
+    rows = raw.rstrip("\r\n").split("\n")
+    smr = [r for r in rows[1:] if r.startswith("SM ")]
+    if smr:
+        rows = [r for r in rows if not r.startswith("SM ")] + smr[:1]
+        open(cn, "wb").write("\n".join(rows).encode("latin-1"))
     # irrigation from file with an entry dated before the simulation start and differing N concentrations (all
     # shipped polygons have Ir = 0): plot 10002 of project ex1
     pp = os.path.join(ex, "project", "ex1", "poly_ex1.txt")
@@ -197,6 +206,10 @@ def prepare_examples(ctx, extreme_rain=True):
                 t = ln.split(",")
                 if len(t) > pi and rnd.random() < 0.02:
                     t[pi] = "%.1f" % rnd.choice([45.0, 62.0, 93.0, 99.0, 120.5, 186.0, 250.0, rnd.uniform(30, 300)])
+                elif len(t) > pi and rnd.random() < 0.03:
+                    # amounts exactly on the class limits of the sub-step choice (|FLUSS0|*DZ = 5, 10, 15 when nothing
+                    # evaporates that day) and their neighbours
+                    t[pi] = rnd.choice(["5.0", "10.0", "15.0", "4.9", "5.1", "9.9", "10.1", "14.9", "15.1", "0.0"])
                 out.append(",".join(t))
             open(os.path.join(dst, fn), "w").write("\n".join(out))
     return ex
@@ -210,10 +223,14 @@ TRACE_LINES = [
     ("project=ex1 WeatherFolder=historical soilId=160 fcode=109_120 plotNr=10002 Altitude=73 Latitude=52.6728 poligonID=29873 ETpot=3 AutoIrrigation=0", "EN"),
     ("project=ex3 WeatherFolder=historical soilId=075 fcode=109_120 plotNr=10001 Altitude=73 Latitude=52.6732 poligonID=29872 PTF=2", "EN"),
     ("project=myP WeatherFolder=extreme soilId=075 plotNr=10001 Altitude=73 Latitude=52.6732 poligonID=29872 ETpot=2 AutoIrrigation=0", "EN"),
-    # a peat soil (top texture 'H...': run.go takes Denitmo instead of Denitr) under the per-year weather layout, with frost days
-    ("project=MUN WeatherFolder=MUN soilId=011 fcode=NEU plotNr=00006 Altitude=55 Latitude=54.00 poligonID=MUN parameter=./parameter StartYear=2009", "DE"),
+    # a peat soil (top texture 'H...': run.go takes Denitmo instead of Denitr) under the per-year weather layout, with frost days;
+    # polar latitude (day length exactly 0 around the winter solstice) with sunshine-only weather and ET method 3
+    ("project=MUN WeatherFolder=MUN soilId=011 fcode=NEU plotNr=00006 Altitude=55 Latitude=54.00 poligonID=MUN parameter=./parameter StartYear=2009 Latitude=69.65 ETpot=3", "DE"),
     ("project=ex1 WeatherFolder=historical soilId=902 fcode=109_120 plotNr=10001 Altitude=73 Latitude=52.6732 poligonID=29872", "EN"),
     ("project=ex3 WeatherFolder=historical soilId=075 gwId=K12 fcode=109_120 plotNr=10001 Altitude=73 Latitude=52.6732 poligonID=29872", "EN"),
+    # Haude's method on a weather file without a saturation-deficit column: potential ET is 0 every day, so the surface
+    # flux equals the rain exactly (class limits of the sub-step choice are hit exactly)
+    ("project=ex1 WeatherFolder=extreme soilId=075 fcode=109_120 plotNr=10002 Altitude=73 Latitude=52.6728 poligonID=29873 ETpot=1 AutoIrrigation=0", "EN"),
     ("project=bulk WeatherFolder=extreme soilId=002 fcode=109_120 plotNr=10001 Altitude=73 Latitude=52.6732 poligonID=29872", "EN"),
     ("project=rue WeatherFolder=historical fcode=109_121 plotNr=10002 soilId=001 Altitude=46 Latitude=52.6431 poligonID=30169", "DE"),
     ("project=ex1 WeatherFolder=extreme soilId=041 fcode=109_121 plotNr=10001 Altitude=73 Latitude=52.6680 poligonID=29876 ETpot=1", "EN"),
@@ -244,7 +261,7 @@ def run_trace(ctx, water_every=None):
     """traced runs of shipped projects (scratch copy) -> (rc, cases, oracle lines, stderr)"""
     import os
     ex = prepare_examples(ctx)
-    nl, endy = (12, 1995) if ctx.thorough else (9, 1982)
+    nl, endy = (13, 1995) if ctx.thorough else (10, 1982)
     lf = os.path.join(ctx.work, "trace_lines.txt")
     with open(lf, "w") as f:
         f.write("\n".join(trace_lines(ctx, nl, endy)) + "\n")
